@@ -773,6 +773,11 @@ class StabilizerCode(metaclass=ABCMeta):
         code_name = self.id
         picture = 'rotated' if rotated_picture else 'kitaev'
 
+        # Codes without a dedicated rotated picture are drawn as in the
+        # default ('kitaev') picture.
+        if stab_type not in data[code_name]['stabilizers'].get(picture, {}):
+            picture = 'kitaev'
+
         representation = data[code_name]['stabilizers'][picture][stab_type]
         representation['type'] = stab_type
         representation['location'] = location
